@@ -17,6 +17,10 @@ class Runaway(Exception):
     """The loop kept running after the script asked it to stop."""
 
 
+class ListenerBoom(ValueError):
+    """Raised by an on_quit listener (scripted fault)."""
+
+
 class ScriptOverrun(RuntimeError):
     """Harness bug guard: more frames than the script provides."""
 
@@ -29,7 +33,16 @@ class QuitListener:
         self.world = None
 
     def on_quit(self, *args):
-        self.ctx.quits.append(self.world)
+        ctx = self.ctx
+        ctx.quits.append(self.world)
+        if ctx.boom_world is self.world:
+            # scripted fault: this listener fails while quit_loop is delivering on_quit
+            ex = ListenerBoom('on_quit listener of %s failed' % self.tag)
+            ctx.boom_world = None
+            ctx.stop = ('raise', ex, self.world)
+            ctx.sp.cover('listener-raises')
+            ctx.sp.note('      on_quit listener of %s raises %r' % (self.tag, ex))
+            raise ex
 
 
 class ScriptProc(desper.Processor):
@@ -78,13 +91,15 @@ TERMINATORS = ['quit', 'quit_loop', 'quit_loop_cur', 'raise']
 
 
 class Ctx:
-    def __init__(self, sp, frames, n_procs, n_worlds, raw, direct=False):
+    def __init__(self, sp, frames, n_procs, n_worlds, raw, direct=False, lraise=False):
         self.sp = sp
         self.frames = frames
         self.n_procs = n_procs
         self.n_worlds = n_worlds
         self.raw = raw
         self.direct = direct
+        self.lraise = lraise
+        self.boom_world = None      # world whose on_quit listener is scripted to raise
         self.keep = []
         self.names = []
         self.quits = []             # worlds whose listener heard on_quit, in order
@@ -184,8 +199,13 @@ class Ctx:
         # ---- action
         last_frame = self.readings >= self.frames
         last_proc = proc.index == self.n_procs - 1
+        terms = list(TERMINATORS)
+        if self.lraise:
+            terms.append('quit_loop_lraise')
+            if self.n_worlds > 1:
+                terms.append('quit_loop_other_lraise')
         if last_frame:
-            opts = list(TERMINATORS)
+            opts = list(terms)
             if self.n_worlds > 1:
                 opts.append('quit_loop_other')
             if not last_proc:
@@ -193,7 +213,7 @@ class Ctx:
                 if self.direct:
                     opts.insert(1, 'direct_switch')
         else:
-            opts = ['nothing'] + TERMINATORS
+            opts = ['nothing'] + terms
             if self.n_worlds > 1:
                 opts += ['quit_loop_other', 'switch']
                 if self.direct:
@@ -223,16 +243,19 @@ class Ctx:
             self.stop = ('raise', ex)
             sp.cover('exception')
             raise ex
-        if a in ('quit_loop', 'quit_loop_cur', 'quit_loop_other'):
-            if a == 'quit_loop_other':
+        if a in ('quit_loop', 'quit_loop_cur', 'quit_loop_other', 'quit_loop_lraise', 'quit_loop_other_lraise'):
+            if a in ('quit_loop_other', 'quit_loop_other_lraise'):
                 target = self.handles[1 - self.cur]()
                 sp.cover('on_quit-given-other')
             else:
                 target = cur_world
-                sp.cover('on_quit-current' if a == 'quit_loop' else 'on_quit-given-current')
+                sp.cover('on_quit-current' if a in ('quit_loop', 'quit_loop_lraise') else 'on_quit-given-current')
+            # if the listener is reached it replaces self.stop by ('raise', its exception); a muted target holds
+            # on_quit, the listener is not reached and this is an ordinary quit
             self.stop = ('quit', target, target.dispatch_enabled)
             self.quits_before = list(self.quits)
-            if a == 'quit_loop':
+            self.boom_world = target if a.endswith('lraise') else None
+            if a in ('quit_loop', 'quit_loop_lraise'):
                 desper.quit_loop()
             else:
                 desper.quit_loop(target)
@@ -250,9 +273,9 @@ class Ctx:
         raise AssertionError(a)
 
 
-def h_loop(sp, starts=2, frames=3, n_procs=2, n_worlds=2, raw=False, direct=False):
+def h_loop(sp, starts=2, frames=3, n_procs=2, n_worlds=2, raw=False, direct=False, lraise=False):
     per_start = list(frames) if isinstance(frames, (list, tuple)) else [frames] * starts
-    ctx = Ctx(sp, per_start[0], n_procs, n_worlds, raw, direct)
+    ctx = Ctx(sp, per_start[0], n_procs, n_worlds, raw, direct, lraise)
     loop = desper.SimpleLoop(time_function=ctx.tf)
     ctx.loop = loop
     saved = desper.default_loop
@@ -268,6 +291,7 @@ def h_loop(sp, starts=2, frames=3, n_procs=2, n_worlds=2, raw=False, direct=Fals
             ctx.stop = None
             ctx.switched = False
             ctx.direct_switched = False
+            ctx.boom_world = None
             ctx.abandoned = False
             sp.note('--- start() #%d' % s)
             outcome = None
@@ -285,8 +309,13 @@ def h_loop(sp, starts=2, frames=3, n_procs=2, n_worlds=2, raw=False, direct=Fals
                         % (s, outcome))
             if ctx.stop[0] == 'raise':
                 sp.check(outcome is ctx.stop[1], 'exception-propagates',
-                         'start %d: a processor raised %r, start() %s' % (
+                         'start %d: a processor or on_quit listener raised %r, start() %s' % (
                              s, ctx.stop[1], 'returned normally' if outcome is None else 'raised %r' % (outcome,)))
+                if len(ctx.stop) > 2:
+                    # raised by an on_quit listener during quit_loop: it was reached, nobody else was
+                    new = ctx.quits[len(ctx.quits_before):]
+                    sp.check(len(new) == 1 and new[0] is ctx.stop[2], 'on_quit-before-listener-fault',
+                             'start %d: on_quit deliveries %s' % (s, [ctx.name(w) for w in new]))
                 ctx.prev_outcome = 'raise'
             else:
                 _, target, was_enabled = ctx.stop
@@ -332,6 +361,12 @@ HARNESSES = {
                                   'raw-quit', 'on_quit-current', 'on_quit-given-current', 'on_quit-given-other',
                                   'switch'],
                         concolic=True),
+    'loop-lraise': dict(fn=h_loop,
+                        nontrivial=['dt-later-frame', 'restart', 'listener-raises', 'exception'],
+                        required=['dt-later-frame', 'restart-after-exception', 'restart-after-quit', 'listener-raises',
+                                  'exception', 'raw-quit', 'on_quit-current', 'on_quit-given-current',
+                                  'on_quit-given-other', 'on_quit-target-muted', 'switch'],
+                        concolic=True),
     'loop-1p': dict(fn=h_loop,
                     nontrivial=['dt-later-frame', 'restart', 'dt-across-switch', 'exception', 'on_quit-given-other'],
                     required=['dt-later-frame', 'restart-after-exception', 'restart-after-quit', 'dt-across-switch',
@@ -357,6 +392,7 @@ TIERS = {
         ('loop', dict(starts=2, frames=(2, 2), n_procs=2, n_worlds=2, raw=True)),
         ('loop1', dict(starts=3, frames=2, n_procs=1, n_worlds=1)),
         ('loop-direct', dict(starts=2, frames=(2, 2), n_procs=2, n_worlds=2, raw=False, direct=True)),
+        ('loop-lraise', dict(starts=2, frames=(2, 2), n_procs=2, n_worlds=2, raw=False, lraise=True)),
     ],
     'thorough': [
         ('loop', dict(starts=2, frames=(4, 2), n_procs=2, n_worlds=2, raw=False)),
@@ -371,6 +407,8 @@ TIERS = {
         ('loop-direct', dict(starts=2, frames=(3, 2), n_procs=2, n_worlds=2, raw=False, direct=True)),
         ('loop-direct', dict(starts=2, frames=(2, 2), n_procs=2, n_worlds=2, raw=True, direct=True)),
         ('loop-direct', dict(starts=3, frames=(2, 2, 2), n_procs=1, n_worlds=2, raw=False, direct=True)),
+        ('loop-lraise', dict(starts=2, frames=(3, 2), n_procs=2, n_worlds=2, raw=False, lraise=True)),
+        ('loop-lraise', dict(starts=3, frames=(2, 2, 2), n_procs=1, n_worlds=2, raw=False, lraise=True)),
     ],
 }
 BUDGET_S = {'quick': 120, 'thorough': 1500}
@@ -390,10 +428,10 @@ RULE = ('one evaluation = one feasible path (a complete script of actions for ev
 BOUNDS = {
     'quick': '2 starts x (<=3,<=2) and (<=2,<=3) frames x 2 processors x 2 worlds (desper.switch); 2 starts x <=2 frames (raw '
              'SwitchWorld); 3 starts x <=2 frames x 1 processor x 1 world; 2 starts x <=2 frames x 2 processors with '
-             'the extra action "call loop.switch(other) directly"; clock readings unbounded reals',
+             'the extra action "call loop.switch(other) directly"; the same with "quit_loop whose on_quit listener raises"; clock readings unbounded reals',
     'thorough': 'frames per start (4,2), (2,4), (3,3) x 2 procs (desper.switch); (3,3) raw SwitchWorld; 3 starts '
                 '(2,2,2) x 2 procs; 3 starts (3,3,3) x 1 proc; (5,5) x 1 proc; 1 start x <=6 frames x 2 procs; '
-                '(2,2) x 3 procs; with direct loop.switch(): (3,2) x 2 procs, (2,2) x 2 procs raw, (2,2,2) x 1 proc; '
+                '(2,2) x 3 procs; with direct loop.switch(): (3,2) x 2 procs, (2,2) x 2 procs raw, (2,2,2) x 1 proc; with a failing on_quit listener: (3,2) x 2 procs, (2,2,2) x 1 proc; '
                 'always 2 worlds; clock readings unbounded reals',
 }
 ASSUMPTIONS = [
@@ -401,6 +439,9 @@ ASSUMPTIONS = [
     '(float rounding of timestamp - last_timestamp is outside the claim; replays use dyadic values)',
     'loop.running after a non-Quit exception propagated is not specified by the statement: don\'t-care',
     'a raw `raise Quit()` promises nothing about on_quit: deliveries are not checked in that case',
+    'an exception raised by an on_quit listener while quit_loop delivers on_quit is "any other exception": that very '
+    'object must reach the caller of start(); running is don\'t-care then; one listener per world, so the only '
+    'listener reached before the fault is the failing one',
     'quit_loop(world) on a world whose dispatching is currently disabled (it was left through desper.switch) '
     'holds on_quit like any other event (C13): accepted, at most one delivery, none elsewhere',
     'desper.default_loop is pointed at the loop under test for the duration of a path (quit_loop() / switch() '
@@ -411,7 +452,8 @@ ASSUMPTIONS = [
     'processes the new current world; nothing is asserted about dispatching of the world switched away from',
 ]
 OUTSIDE = ['more frames / starts / processors than the bounds', 'time functions that go backwards or return '
-           'non-numbers', 'Quit raised by event handlers while on_quit is being dispatched',
+           'non-numbers', 'Quit raised by event handlers while on_quit is being dispatched', 'several on_quit '
+           'listeners per world (set iteration order)',
            'Loop subclasses other than SimpleLoop']
 
 TECHNIQUE = 'bounded symbolic execution of the real SimpleLoop with symbolic real clock readings (z3 LRA validity of dt == difference), concolic cross-check'
